@@ -7,6 +7,7 @@ import NodisVerif.Driver.FragOps
 import NodisVerif.Driver.ProtoOps
 import NodisVerif.Driver.LinkedListOps
 import NodisVerif.Model.Feed
+import NodisVerif.Driver.PatchOps
 open NodisVerif
 
 structure DState where
@@ -41,6 +42,7 @@ def step (d : DState) (line : String) : DState × String :=
   | [] => (d, "")
   | "ck" :: _ | "dk" :: _ | "ev" :: _ => (d, Driver.codecOp toks)
   | "frag" :: rest => (d, Driver.fragOp rest)
+  | "pschema" :: _ | "penc" :: _ | "pdec" :: _ => (d, Driver.patchOp toks)
   | "ll" :: rest => let (l, out) := Driver.llOp d.ll rest; ({ d with ll := l }, out)
   | "pev" :: rest => let (p, out) := Driver.protoOp d.proto rest; ({ d with proto := p }, out)
   | "bev" :: rest => let (b, out) := Driver.blockOp d.block rest; ({ d with block := b }, out)
